@@ -169,6 +169,12 @@ func (m *Machine) callValue(s *State, f *Frame, x *ssa.Call, cc *ssa.CallCommon,
 			s.fail("unsupported", "cannot resolve "+cc.Method.Name())
 			return nil
 		}
+		if x != nil && !m.initPkgs[fnPkgPath(fn)] {
+			// interface call that lands on a library method with an intrinsic model
+			if r, handled := m.intrinsic(s, f, x, fn.String(), fn, append([]Value{recv.v}, args...)); handled {
+				return r
+			}
+		}
 		m.pushFrame(s, fn, append([]Value{recv.v}, args...), nil, dest)
 		return nil
 	}
@@ -577,6 +583,10 @@ func (m *Machine) intrinsic(s *State, f *Frame, x *ssa.Call, name string, callee
 		if r, ok := m.timeIntrinsic(s, f, x, name, args); ok {
 			return r, true
 		}
+	case short == "vSettle":
+		// native-only pause that biases the Go scheduler towards the interesting interleaving when a
+		// counterexample is replayed; the symbolic run explores the schedules at blocking operations anyway
+		return nil, true
 	case short == "vSleep":
 		// "long enough for the other goroutines to park": a schedule point
 		return m.schedule(s, true), true
@@ -797,10 +807,23 @@ func (m *Machine) intrinsic(s *State, f *Frame, x *ssa.Call, name string, callee
 		f.env[x] = IfaceV{typ: x.Type(), v: &ErrV{id: m.nerr, msg: fmt.Sprintf("grpc-status-%d", code)}}
 		return nil, true
 	case name == "google.golang.org/grpc/status.Code":
-		f.env[x] = Sc{c.BV(2, 32)} // codes.Unknown for any non-nil error in the spike
-		if args[0].(IfaceV).typ == nil {
+		f.env[x] = Sc{c.BV(2, 32)} // codes.Unknown for a non-nil error that carries no status
+		iv := args[0].(IfaceV)
+		if iv.typ == nil {
 			f.env[x] = Sc{c.BV(0, 32)}
+		} else if ev, ok := iv.v.(*ErrV); ok {
+			for e := ev; e != nil; e = e.cause {
+				var code uint64
+				if n, _ := fmt.Sscanf(e.msg, "grpc-status-%d", &code); n == 1 {
+					f.env[x] = Sc{c.BV(code, 32)}
+					break
+				}
+			}
 		}
+		return nil, true
+	case name == "(*github.com/cenkalti/backoff/v4.ExponentialBackOff).NextBackOff":
+		m.stubs["backoff interval abstracted to a constant 100ms (randomised floating-point interval not modelled)"]++
+		f.env[x] = Sc{c.BV(100_000_000, 64)}
 		return nil, true
 	case name == "(github.com/oxia-db/oxia/server/util/crc.Checksum).Update":
 		// crc32 (assembly): uninterpreted function of (previous value, bytes); one symbol per length
@@ -1080,3 +1103,13 @@ func (m *Machine) timeType(x *ssa.Call) types.Type {
 }
 
 type RegexV struct{ pat string }
+
+func fnPkgPath(fn *ssa.Function) string {
+	if fn.Pkg != nil {
+		return fn.Pkg.Pkg.Path()
+	}
+	if o := fn.Origin(); o != nil && o.Pkg != nil {
+		return o.Pkg.Pkg.Path()
+	}
+	return ""
+}
